@@ -260,16 +260,22 @@ func BlockOnInteractiveRequests(caller ...string) {
 	}
 }
 
-// SetReadOnly can put the server in a read-only mode.
+// SetReadOnly can put the server in a read-only mode.  Turning read-only mode
+// off returns to the default mode; it does not allow writes on committed nodes.
 func SetReadOnly(on bool) {
 	readonly = on
-	fullwrite = !on
+	if on {
+		fullwrite = false
+	}
 }
 
-// SetFullWrite allows mutations on any version.
+// SetFullWrite allows mutations on any version.  Turning full-write mode off
+// returns to the default mode; it does not make the server read-only.
 func SetFullWrite(on bool) {
 	fullwrite = on
-	readonly = !on
+	if on {
+		readonly = false
+	}
 }
 
 // SetMonitor can put server in monitor mode (writes load stats to debug if activity).
